@@ -138,8 +138,8 @@ def run_shard(ctx):
     d = drive.Driver(ctx, feat, flags="random", styles=("mixed", "runs", "dups", "tiny"), judge_model=False, extra=monitor,
                      interesting=None)
     d.macros = [MACROS]
-    d.loop(2500, 60000)
-    wildcard_position_stratum(ctx, d, ctx.share(400, 8000))
+    d.loop(2500, 120000)
+    wildcard_position_stratum(ctx, d, ctx.share(400, 16000))
 
 
 def replay(ctx, case):
